@@ -49,7 +49,7 @@ def Cases(tier):
   return cases + semrun.Reproducers(PROP)
 
 
-REQUIRED = ['fam_inject_combine', 'fam_if_chain', 'variant_permute', 'variant_rename_vars', 'variant_rename_preds',
+REQUIRED = ['fam_dup_disjuncts', 'fam_in_expr_repeated', 'fam_multi_disj_conj', 'fam_inject_combine', 'fam_if_chain', 'variant_permute', 'variant_rename_vars', 'variant_rename_preds',
             'variant_all', 'distinct', 'negation', 'multi_rule', 'disjunction']
 
 
